@@ -717,6 +717,16 @@ def wrapped(a, b): pass
 @deco
 def wrapped2(a, b): pass
 def nothing(): return 0
+class StaticPok:
+    # modifiers under staticmethod: looked up on the class these are plain callables, not methods
+    @staticmethod
+    @modifiers.kwoargs('l2')
+    def helper(l2, b, *args, **kwargs): return l2(*args, **kwargs)
+    @staticmethod
+    @modifiers.posoargs('a')
+    def helper2(a, b=1): return a
+    @modifiers.kwoargs('k')
+    def meth(self, a, k=1): return a
 class NoSelf:
     # a method written without an explicit self: *args receives the instance
     def m(*args, **kwargs): return nothing(*args, **kwargs)
@@ -764,6 +774,23 @@ def rt_adversarial(req):
                     problems.append('not-upgraded: %s(%r) returned a %s' % (name, obj, o[1]))
                 elif insp[0] != 'ok' and o[0] != 'ok' and o[1] != insp[1]:
                     problems.append('different-exception: %s(%r) raised %s, inspect.signature raised %s' % (name, obj, o[1], insp[1]))
+        # the Sphinx hook on the named members of this module (it resolves the dotted name itself)
+        import sys as _sys
+        from sigtools import sphinxext
+        _sys.modules[mod.__name__] = mod
+        try:
+            for dotted in ('StaticPok.helper', 'StaticPok.helper2', 'StaticPok.meth', 'StaticPok', 'Body.m', 'Body.s', 'Body.c', 'Body',
+                           'NoSelf.m', 'two', 'wrapped2', 'lam', 'recur_n'):
+                try:
+                    with warnings.catch_warnings():
+                        warnings.simplefilter('ignore')
+                        r = sphinxext.process_signature(None, 'function', mod.__name__ + '.' + dotted, None, None, '(PASSED)', 'RET')
+                    if not (isinstance(r, tuple) and len(r) == 2 and all(isinstance(x, str) for x in r)):
+                        problems.append('sphinx-hook-result: process_signature(%s) returned %r' % (dotted, r))
+                except BaseException as e:  # noqa
+                    problems.append('sphinx-hook-raises: process_signature(<adversarial module>.%s) raised %s: %s' % (dotted, type(e).__name__, str(e)[:80]))
+        finally:
+            _sys.modules.pop(mod.__name__, None)
     finally:
         progs.unload(fname)
     return ('ok', tuple(problems[:3]), 'objects:%d' % n)
